@@ -1,11 +1,10 @@
 # Table read by mkmanifest.py. CLAIMED[id] = (technique, level text, level note)
 SSA_BASE = "trusted: go/types, go/ssa, go/packages (x/tools v0.29.0), Go 1.23.5; the rule tables in the checker"
 CLAIMED["C29"] = (
- "SSA path analysis of error/exit plumbing (must-reach-failing-exit, exit-code provenance)",
- "Decides, for every path, the structural clauses: a failing load/compile/instantiate/run reaches os.Exit(non-zero) or a returned error that main turns into a non-zero status; no failing exit without a failed error test; the status on the exit path is the code extracted from the engine's ExitError. Does not decide that the engine reports every trap as an error.",
+ "SSA path analysis of error/exit plumbing (must-reach-failing-exit, exit-code provenance); exit-error identity lint; enum exhaustiveness of the compiling engine's trap status switch",
+ "Decides, for every path, the structural clauses: a failing load/compile/instantiate/run reaches os.Exit(non-zero) or a returned error that main turns into a non-zero status; no failing exit without a failed error test; the status on the exit path is the code extracted from the engine's ExitError. Also: the exit error reaches AsExitError unwrapped, and every status constant of the compiling engine is handled by its call loop or mapped to a non-nil error (no trap ends in panic(nil)). Does not decide that the engine's generated code raises the right status for every trapping instruction.",
  SSA_BASE)
 
-NA["C22"] = "Apply(before, diff)==after is a value-level property of a vendored LCS algorithm; no necessary structural clause; a fork-diff would be a brittle proxy (DESIGN.md section 5)"
 NA["C31"] = "differential behaviour of the vendored wazero engine over all modules; no Wa-specific table to cross-check (DESIGN.md section 5)"
 AST_BASE = "trusted: go/types, go/packages (x/tools v0.29.0), Go 1.23.5; the embedded reference tables in the checker (WebAssembly instruction table etc.)"
 CLAIMED["C04"] = (
@@ -90,8 +89,8 @@ CLAIMED["C15"] = (
  "Decides that the representability bounds of every sized integer kind are exactly the kind's range, that every kind is materialised through the accessor of its signedness into the wir type of that kind with the kind's float precision, and that each literal spelling is parsed back with the same width and signedness by the static-data encoder. Does not decide the arithmetic of internal/constant, per-operator overflow detection, or float rounding.",
  AST_BASE)
 CLAIMED["C07"] = (
- "writer/reader agreement lint per language pair (parser, printer) and (w2parser, w2printer): interface-implementer enumeration of parser-built node types vs. the printers' total type switches; parser-stored AST fields vs. printer-read fields with a reasoned exception table; language pairing in format.File",
- "Decides that each printer's total dispatchers over expressions and statements list every node type its paired parser builds, that every syntactic (non-positional, non-resolution) AST field the parser stores is read by the printer, and that format.File sends each language to its own parser and printer. Does not decide idempotence, comment placement, line breaking, or that the output re-parses to the same tree.",
+ "writer/reader agreement lint per language pair (parser, printer) and (w2parser, w2printer): interface-implementer enumeration of parser-built node types vs. the printers' total type switches; parser-stored AST fields vs. printer-read fields with a reasoned exception table; language pairing in format.File; sibling/origin agreement: canonical syntax-tree comparison of the .wa printer, the .wz printer and go/printer (GOROOT) at function and switch-arm level against a frozen instance list",
+ "Decides that each printer's total dispatchers over expressions and statements list every node type its paired parser builds, that every syntactic (non-positional, non-resolution) AST field the parser stores is read by the printer, that format.File sends each language to its own parser and printer, and that the 269 functions and switch arms shared between the two printers and go/printer (the printer both were forked from) are still the same code on both sides (a one-sided edit is reported). Does not decide idempotence, comment placement, line breaking, or that the output re-parses to the same tree.",
  AST_BASE)
 CLAIMED["C11"] = (
  "typestate/ordering lint over emission sequences of the code generator (ordered appends of retain / release / push / pop / load / store extracted from the type-checked AST, with guards and loop direction), sibling forwarder agreement, and a who-may-call / dominance-shape check over the embedded WAT runtime read with an own WAT reader",
@@ -102,11 +101,11 @@ CLAIMED["C12"] = (
  "Decides the release side: genFunction releases every RC register after the body and after pushing the results; stores into an existing register use the releasing pop; Block.OnFree / Struct.genRawFree / Struct.OnFree / container forwarders release every referenced member; Block.Release runs the free callback once per item, advancing by the item size, before freeing. Does not decide absence of leaks in emitted programs, cycles, or allocator reuse.",
  AST_BASE)
 CLAIMED["C14"] = (
- "table agreement with the Go standard library sources in GOROOT: one literal/constant evaluator (go/constant over go/ast) applied to the package-level constants and literal tables of each ported package (Wa side read with the repository's parser, value expressions re-read as Go expressions) and of the Go package of the same import path; frozen list of the instances that were equal when the rule was armed",
- "Decides that 214 named constants and literal tables of the ported packages (bit tables, UTF-8/UTF-16 classification constants, CRC polynomials, hash primes, hex tables, calendar tables, float formatting tables ...) still have Go's values. Does not decide any function body or the behaviour of the ports on inputs.",
+ "table agreement with the Go standard library sources in GOROOT: one literal/constant evaluator (go/constant over go/ast) applied to the package-level constants and literal tables of each ported package (Wa side read with the repository's parser, value expressions re-read as Go expressions) and of the Go package of the same import path; port-body: canonical syntax-tree comparison of 548 ported functions with the Go functions of the same name; port-goto-inlining: copies of Go label blocks in the goto-free ports; frozen list of the instances that were equal when the rule was armed",
+ "Decides that 214 named constants and literal tables of the ported packages (bit tables, UTF-8/UTF-16 classification constants, CRC polynomials, hash primes, hex tables, calendar tables, float formatting tables ...) still have Go's values. Also decides that 548 ported functions are still the same function as Go's (syntax trees equal after normalising receiver spelling and type names), and that the hand-inlined copies of Go label blocks in decimal.floatBits are complete. Does not decide functions that already differ from this GOROOT's version, nor Wa/Go differences in expression semantics.",
  "trusted: go/parser, go/constant, GOROOT sources of the installed Go 1.23.5 as the oracle, the repository's Wa parser as front end")
 CLAIMED["C13"] = (
- "structural lint over the Wa source of the runtime map (parsed with the repository's parser; token-level mirror comparison under the left/right exchange with commutativity and child-slot normalisation; orientation table of comparison arms; payload-field coverage of the successor transfer; entry-point routing) plus an emission-sequence rule on the generated struct comparator",
+ "structural lint over the Wa source of the runtime map (parsed with the repository's parser; token-level mirror comparison under the left/right exchange with commutativity and child-slot normalisation; orientation table of comparison arms; payload-field coverage of the successor transfer; entry-point routing) plus an emission-sequence rule on the generated struct comparator; sentinel-guard/target agreement in map.wa; guard lint on the MakeInterface sites of the generated map helpers",
  "Decides that the fix-up arms and the two rotations of the red-black tree are mirror images, that insert and search descend by the same key order, that deleting a two-child node moves every payload field of the successor and compacts the unlinked node, that the six runtime entry points exist with the back end's arity and forward to the method of their role, and that struct keys are compared field by field. Does not decide the rebalancing algorithm itself or iteration under mutation.",
  AST_BASE)
 
@@ -124,3 +123,8 @@ CLAIMED["C10"] = (
  "symbolic path summaries of the allocator's WAT source (every control-flow path, symbolic operand stack, leaf accessors expanded) compared as linear forms; finite evaluation of the size-class ladder's path conditions",
  "Decides per-operation necessary conditions of the heap invariant, on both copies of the allocator: the bump amount is payload+8 and memory.grow covers the deficit; every ring path that returns a block moves the rover to the predecessor; split and the four coalescing combinations conserve header and payload bytes and relink the ring; the size classes are positive multiples of 8 at least as large as every request routed to them and agree with free's routing; the spill loop releases every node; fixed-list push/pop keep the count; malloc returns block+8 and free steps back 8. Does not decide the global no-overlap invariant over all histories, nor termination of the ring scan.",
  "trusted: the WAT reader and path summariser of the checker (watsrc.go, watflow.go)")
+
+CLAIMED["C22"] = (
+ "origin agreement: canonical syntax-tree comparison of the copied diff package with golang.org/x/tools@v0.29.0/internal/diff in the module cache (frozen function list); finite evaluation of the fork's ASCII tests over 256 byte values",
+ "Decides that internal/lsp/diff and its lcs sub-package are still the algorithm they were copied from: 71 functions equal to the origin's, Bytes equal up to the renamed ASCII test, and the two forked ASCII tests classify every byte value as the origin does. That the origin's algorithm satisfies Apply(before, Strings(before, after)) == after is not re-established here.",
+ AST_BASE)
